@@ -31,6 +31,7 @@ type Value struct {
 	Keys    []string // decoded member names in document order
 	Vals    []*Value
 	KeyLone []bool // per member: the name contained a lone surrogate escape (nil if none)
+	Off, End int   // byte span [Off,End) of this value in the parsed text (set by Parse only)
 }
 
 const MaxDepth = 10000
@@ -86,6 +87,15 @@ func min(a, b int) int {
 }
 
 func (p *parser) value() (*Value, error) {
+	start := p.i
+	v, err := p.value1()
+	if v != nil {
+		v.Off, v.End = start, p.i
+	}
+	return v, err
+}
+
+func (p *parser) value1() (*Value, error) {
 	if p.i >= len(p.b) {
 		return nil, ErrSyntax
 	}
